@@ -18,6 +18,8 @@
 #include <dlfcn.h>
 #include <sys/stat.h>
 #include <sys/uio.h>
+#include <sys/epoll.h>
+#include <algorithm>
 
 #include <tbox/event/loop.h>
 #include <tbox/util/buffer.h>
@@ -49,6 +51,14 @@ static bool g_fd_tables_ready = false;
 static int g_accepted = 0;
 static int g_last_read_conn = -1;           // connection whose socket was read last (request handlers run right after)
 static std::string g_sys;                   // system calls on server-side connection sockets since the last report
+// The order in which the engine reports several ready connections in ONE loop pass is the kernel's choice: the op file makes it
+// (`mseg`: events of the listed connections are handed to the loop in the listed order, whatever order the clients wrote in);
+// `g_hold` withholds the events of connection sockets altogether (level-triggered: they are reported again later) so that the
+// accepts after `start()` can be separated from the first reads. `g_rd`: connections in the order of their first readv().
+static std::vector<int> g_order;
+static volatile bool g_hold = false;
+static std::vector<int> g_rd;
+static volatile bool g_rd_on = false;
 static void initFdTables() {
     if (g_fd_tables_ready) return;
     for (int i = 0; i < kMaxFd; ++i) { g_conn_of_fd[i] = -1; g_wfail_fd[i] = false; }
@@ -81,6 +91,7 @@ extern "C" ssize_t readv(int fd, const struct iovec *iov, int cnt) {
     int c = connOfFd(fd);
     if (c >= 0) {
         g_last_read_conn = c;
+        if (g_rd_on && std::find(g_rd.begin(), g_rd.end(), c) == g_rd.end()) g_rd.push_back(c);
         if (g_rerr) { g_rerr = false; errno = ECONNRESET; return -1; }
     }
     return real(fd, iov, cnt);
@@ -120,6 +131,29 @@ extern "C" int close(int fd) {
     int c = connOfFd(fd);
     if (c >= 0) { sysEvent(c, "close"); g_conn_of_fd[fd] = -1; g_wfail_fd[fd] = false; }
     return real(fd);
+}
+extern "C" int epoll_wait(int epfd, struct epoll_event *ev, int maxev, int timeout) {
+    typedef int (*ew_t)(int, struct epoll_event *, int, int);
+    static ew_t real = (ew_t)dlsym(RTLD_NEXT, "epoll_wait");
+    int n = real(epfd, ev, maxev, timeout);
+    if (n <= 0) return n;
+    if (g_hold) {
+        int k = 0;
+        for (int i = 0; i < n; ++i) if (connOfFd(ev[i].data.fd) < 0) ev[k++] = ev[i];
+        n = k;
+    }
+    if (!g_order.empty() && n > 1) {
+        auto rank = [](const struct epoll_event &e) {
+            int c = connOfFd(e.data.fd);
+            auto it = std::find(g_order.begin(), g_order.end(), c);
+            return (c < 0 || it == g_order.end()) ? -1 : (int)(it - g_order.begin());
+        };
+        std::vector<int> slots; std::vector<struct epoll_event> evs;
+        for (int i = 0; i < n; ++i) if (rank(ev[i]) >= 0) { slots.push_back(i); evs.push_back(ev[i]); }
+        std::stable_sort(evs.begin(), evs.end(), [&](const struct epoll_event &a, const struct epoll_event &b) { return rank(a) < rank(b); });
+        for (size_t j = 0; j < slots.size(); ++j) ev[slots[j]] = evs[j];
+    }
+    return n;
 }
 extern "C" int accept(int fd, struct sockaddr *addr, socklen_t *len) {
     typedef int (*accept_t)(int, struct sockaddr *, socklen_t *);
@@ -263,6 +297,24 @@ static bool parseWq(const std::string &spec, std::vector<WAns> &out) {
     return true;
 }
 
+// "0:hex,2:hex"
+static bool parseItems(const std::string &spec, std::vector<std::pair<int, std::vector<uint8_t>>> &out) {
+    out.clear();
+    size_t pos = 0;
+    while (true) {
+        size_t e = spec.find(',', pos);
+        std::string it = spec.substr(pos, e == std::string::npos ? std::string::npos : e - pos);
+        size_t c = it.find(':');
+        if (c == std::string::npos || it.find(':', c + 1) != std::string::npos) return false;
+        uint64_t k = 0; std::vector<uint8_t> d;
+        if (!vh::to_u64(it.substr(0, c), k) || k > 1000 || !vh::unhex(it.substr(c + 1), d) || d.empty()) return false;
+        out.push_back(std::make_pair((int)k, d));
+        if (e == std::string::npos) break;
+        pos = e + 1;
+    }
+    return true;
+}
+
 // ---------------------------------------------------------------- parser level
 struct PConn {
     RequestParser parser;
@@ -332,9 +384,27 @@ struct Srv {
         std::map<int, Script> scripts;
         int next_idx = 0;
         int cur_idx = -1;
+        bool pre_data = false;      // sent something while still in the listen backlog
     };
     std::vector<std::unique_ptr<Cli>> clis;
     int cur = 0;                // the connection the op lines are about (`on <k>`)
+    bool multi = false;         // this op is about several connections at once: everything is reported with its connection index
+    bool q_ran = false;         // a handler let a new client connect during this op
+    bool any_q = false;         // some script of this case lets a client connect: which cabinet cell the new connection gets depends on
+                                // whether the engine sees it before or after an unrelated teardown of the same op, so the order of the
+                                // close() calls of a later stop() is compared by connection, not by cell
+    bool rd_line = false;       // report the order of the first reads
+    bool curOk() const { return cur >= 0 && cur < (int)clis.size() && cur < g_accepted; }
+    // a client connects; no loop pass here (called from handlers too)
+    bool connectOnly() {
+        int fd = ::socket(AF_UNIX, SOCK_STREAM | SOCK_NONBLOCK, 0);
+        struct sockaddr_un a; memset(&a, 0, sizeof(a));
+        a.sun_family = AF_UNIX; strncpy(a.sun_path, path.c_str(), sizeof(a.sun_path) - 1);
+        if (::connect(fd, (struct sockaddr *)&a, sizeof(a)) != 0) { ::close(fd); return false; }
+        clis.emplace_back(new Cli);
+        clis.back()->cfd = fd;
+        return true;
+    }
     bool poisoned = false;      // a handler threw: counters of the library are unbalanced, the objects are leaked at reset
     Cli &c() { return *clis[cur]; }
 
@@ -353,7 +423,8 @@ struct Srv {
                     if (a.empty()) return false;
                     Act act; act.kind = a[0];
                     if (a[0] == 'b') { std::vector<uint8_t> d; if (!vh::unhex(a.substr(1), d)) return false; act.body.assign(d.begin(), d.end()); }
-                    else if (a.size() != 1 || std::string("nktsc").find(a[0]) == std::string::npos) return false;
+                    else if (a.size() != 1 || std::string("nktscq").find(a[0]) == std::string::npos) return false;
+                    if (a[0] == 'q' && (lvl != 0 || !out[0].empty())) return false;   // only as the first action of the first handler
                     out[lvl].push_back(act);
                     if (e2 == std::string::npos) break;
                     p2 = e2 + 1;
@@ -373,7 +444,7 @@ struct Srv {
         Cli &cl = *clis[ci];
         if (lvl == 0) {
             cl.cur_idx = cl.next_idx++;
-            if (ci != cur) std::cout << "P xreq " << ci << "\n";     // a request handed out on a connection that got no segment
+            if (multi || ci != cur) std::cout << "P xreq " << ci << "\n";     // a request handed out on a connection that got no segment
             std::cout << "P req " << cl.cur_idx << " " << showReq(ctx->req()) << "\n";
         }
         int idx = cl.cur_idx;
@@ -389,24 +460,20 @@ struct Srv {
                 case 't': throw std::runtime_error("scripted handler throws");
                 case 's': srv->stop(); break;
                 case 'c': srv->cleanup(); break;
+                case 'q': q_ran = true; connectOnly(); break;
             }
         }
     }
 
     // one more client; true = the server accepted it (its accept() count went up)
     bool connectClient() {
-        int fd = ::socket(AF_UNIX, SOCK_STREAM | SOCK_NONBLOCK, 0);
-        struct sockaddr_un a; memset(&a, 0, sizeof(a));
-        a.sun_family = AF_UNIX; strncpy(a.sun_path, path.c_str(), sizeof(a.sun_path) - 1);
-        if (::connect(fd, (struct sockaddr *)&a, sizeof(a)) != 0) { ::close(fd); return false; }
         int before = g_accepted;
-        clis.emplace_back(new Cli);
-        clis.back()->cfd = fd;
+        if (!connectOnly()) return false;
         pump();
         return g_accepted == before + 1;
     }
 
-    bool start(int accept_failures = 0) {
+    bool start(int accept_failures = 0, bool run = true) {
         static int seq = 0;
         initFdTables();
         for (int i = 0; i < kMaxFd; ++i) { g_conn_of_fd[i] = -1; g_wfail_fd[i] = false; }
@@ -415,9 +482,10 @@ struct Srv {
         path = "/tmp/C12-h-" + std::to_string(getpid()) + "-" + std::to_string(seq++) + ".sock";
         loop = event::Loop::New();
         srv = new Server(loop);
-        if (!srv->initialize(network::SockAddr(network::DomainSockPath(path)), 4)) return false;
+        if (!srv->initialize(network::SockAddr(network::DomainSockPath(path)), 16)) return false;
         for (int lvl = 0; lvl < kLevels; ++lvl)
             srv->use([this, lvl](ContextSptr ctx, const NextFunc &next) { runLevel(lvl, ctx, next); });
+        if (!run) return true;
         if (!srv->start()) return false;
         return connectClient();
     }
@@ -438,8 +506,23 @@ struct Srv {
         return buf;
     }
 
-    static void sysLine() {
-        std::cout << "M sys " << (g_sys.empty() ? "-" : g_sys) << "\n";
+    // accepts (`setfl`) first, then everything else in the order it happened: whether a connection accepted in the same op comes
+    // before or after the close of another one is the engine's order of two unrelated events
+    // (`by_conn`: an op about several connections at once — which of two unrelated connections is closed first is the engine's order too)
+    static void sysLine(bool by_conn = false) {
+        std::vector<std::string> a, b; size_t pos = 0;
+        while (!g_sys.empty() && pos <= g_sys.size()) {
+            size_t e = g_sys.find(',', pos);
+            std::string it = g_sys.substr(pos, e == std::string::npos ? std::string::npos : e - pos);
+            (it.find(":setfl") != std::string::npos ? a : b).push_back(it);
+            if (e == std::string::npos) break;
+            pos = e + 1;
+        }
+        if (by_conn) std::stable_sort(b.begin(), b.end(), [](const std::string &x, const std::string &y) { return atoi(x.c_str() + 1) < atoi(y.c_str() + 1); });
+        a.insert(a.end(), b.begin(), b.end());
+        std::string out;
+        for (auto &x : a) out += (out.empty() ? "" : ",") + x;
+        std::cout << "M sys " << (out.empty() ? "-" : out) << "\n";
         g_sys.clear();
     }
 
@@ -455,7 +538,7 @@ struct Srv {
             size_t before = 0, after = 0;
             for (auto &g : got) before += g.size();
             unsigned long used_before = g_wq_used;
-            for (size_t k = 0; k < n; ++k) {
+            for (size_t k = 0; k < n && (int)k < g_accepted; ++k) {     // a client still in the listen backlog has nobody to hear from
                 Cli &cl = *clis[k];
                 if (cl.eof || now_eof[k] || cl.cfd < 0) continue;
                 char b[65536];
@@ -470,14 +553,24 @@ struct Srv {
             for (auto &g : got) after += g.size();
             idle = (after == before && g_wq_used == used_before) ? idle + 1 : 0;
         }
-        std::cout << "P out " << showBytes(got[cur]) << "\n";
-        if (now_eof[cur]) { c().eof = true; std::cout << "P eof\n"; }
+        size_t pending = 0;
+        if (srv && srv->state() != Server::State::kNone && (int)clis.size() > g_accepted) pending = clis.size() - g_accepted;
+        if (q_ran) std::cout << "P hconn " << g_accepted << " " << pending << "\n";
+        if (rd_line) {
+            std::string r;
+            for (int c : g_rd) r += (r.empty() ? "" : ",") + ("c" + std::to_string(c));
+            std::cout << "M rd " << (r.empty() ? "-" : r) << "\n";
+        }
+        if (!multi) {
+            std::cout << "P out " << ((size_t)cur < n ? showBytes(got[cur]) : std::string("-")) << "\n";
+            if ((size_t)cur < n && now_eof[cur]) { c().eof = true; std::cout << "P eof\n"; }
+        }
         for (size_t k = 0; k < n; ++k) {
-            if ((int)k == cur) continue;
+            if ((int)k == cur && !multi) continue;
             if (!got[k].empty()) std::cout << "P xout " << k << " " << showBytes(got[k]) << "\n";
             if (now_eof[k]) { clis[k]->eof = true; std::cout << "P xeof " << k << "\n"; }
         }
-        sysLine();
+        sysLine(multi || any_q);
     }
 
     void clientClose() {
@@ -520,8 +613,16 @@ int main() {
         std::vector<uint8_t> d, d2, d3, d4, d5, d6; uint64_t n = 0, n2 = 0, n3 = 0; std::map<std::string, std::string> kvs, kvs2, kvs3;
         Method me = Method::kUnset; HttpVer ve = HttpVer::kUnset;
         bool ok = true; Srv::Script sc; std::vector<WAns> wq;
+        std::vector<std::pair<int, std::vector<uint8_t>>> items;
+        static const char *cur_ops[] = {"seg", "done", "doneN", "doneR", "rel", "cclose", "dclose", "dcloseN", "cdone", "chalf", "chalfS", "wfail", "rseg", "sync", "script"};
+        bool needs_cur = false;
+        for (const char *o : cur_ops) if (op == o) needs_cur = true;
+        if (sv) { sv->multi = false; sv->q_ran = false; sv->rd_line = false; }
+        g_order.clear(); g_rd.clear(); g_rd_on = false; g_hold = false;
         try {
-            if (op == "method" && w.size() == 2 && vh::unhex(w[1], d)) {
+            if (sv && needs_cur && !sv->poisoned && !sv->curOk()) {
+                ok = false;     // no current connection (server created without a client)
+            } else if (op == "method" && w.size() == 2 && vh::unhex(w[1], d)) {
                 std::cout << "P method " << methodName(StringToMethod(std::string(d.begin(), d.end()))) << "\n";
             } else if (op == "version" && w.size() == 2 && vh::unhex(w[1], d)) {
                 std::cout << "P version " << verName(StringToHttpVer(std::string(d.begin(), d.end()))) << "\n";
@@ -601,20 +702,64 @@ int main() {
                 sv.reset(new Srv);
                 if (!sv->start((int)n)) { std::cout << "P srv-start-failed\n"; }
                 else { std::cout << "P srv\n"; Srv::sysLine(); }
+            } else if (op == "srvq" && w.size() == 1 && !sv && !pc) {
+                sv.reset(new Srv);
+                if (!sv->start(0, false)) std::cout << "P srv-start-failed\n";
+                else { std::cout << "P srvq\n"; Srv::sysLine(); }
+            } else if (op == "conn" && w.size() == 1 && sv && !sv->poisoned && sv->srv->state() == Server::State::kNone) {
+                if (sv->connectOnly()) std::cout << "P conn " << sv->clis.size() - 1 << " connected-to-a-closed-listener\n";
+                else std::cout << "P conn refused\n";
+                Srv::sysLine();
+            } else if ((op == "conn" || op == "connd") && (op == "conn" ? w.size() == 1 : (w.size() == 2 && vh::unhex(w[1], d) && !d.empty())) && sv && !sv->poisoned &&
+                       sv->srv->state() == Server::State::kInited && sv->clis.size() < 8 && (int)sv->clis.size() - g_accepted < 4) {
+                size_t k = sv->clis.size();
+                bool connected = sv->connectOnly();
+                if (connected && !d.empty()) { ::send(sv->clis.back()->cfd, d.data(), d.size(), MSG_NOSIGNAL); sv->clis.back()->pre_data = true; }
+                int before = g_accepted;
+                sv->pump();
+                if (!connected) std::cout << "P conn " << k << " refused\n";
+                else if (g_accepted != before) std::cout << "P conn " << k << " accepted-while-stopped\n";
+                else std::cout << "P conn " << k << " queued\n";
+                Srv::sysLine();
             } else if (op == "conn" && w.size() == 1 && sv && !sv->poisoned && sv->srv->state() == Server::State::kRunning && sv->clis.size() < 8) {
                 size_t k = sv->clis.size();
                 if (sv->connectClient()) std::cout << "P conn " << k << "\n"; else std::cout << "P conn " << k << " not-accepted\n";
                 Srv::sysLine();
-            } else if (op == "on" && w.size() == 2 && vh::to_u64(w[1], n) && sv && n < sv->clis.size()) {
+            } else if ((op == "mseg" || op == "msegr") && w.size() == 2 && sv && !sv->poisoned && parseItems(w[1], items) && items.size() <= 8 && g_wq.empty() &&
+                       std::all_of(items.begin(), items.end(), [&](const std::pair<int, std::vector<uint8_t>> &it) {
+                           return it.first < g_accepted && it.first < (int)sv->clis.size() &&
+                                  std::count_if(items.begin(), items.end(), [&](const std::pair<int, std::vector<uint8_t>> &o) { return o.first == it.first; }) == 1; })) {
+                // every listed client has written before the loop makes its next pass; the engine is told about the connections
+                // in the listed order (for `msegr` the clients wrote in the opposite order)
+                sv->multi = true; sv->rd_line = true; g_rd_on = true;
+                for (auto &it : items) g_order.push_back(it.first);
+                if (op == "msegr") std::reverse(items.begin(), items.end());
+                for (auto &it : items) if (sv->clis[it.first]->cfd >= 0) ::send(sv->clis[it.first]->cfd, it.second.data(), it.second.size(), MSG_NOSIGNAL);
+                sv->settle();
+            } else if (op == "on" && w.size() == 2 && vh::to_u64(w[1], n) && sv && n < sv->clis.size() && (int)n < g_accepted) {
                 sv->cur = (int)n;
                 std::cout << "P on " << n << "\n";
             } else if (op == "sstart" && w.size() == 1 && sv && !sv->poisoned) {
-                std::cout << "P sstart " << (sv->srv->start() ? 1 : 0) << "\n";
-                sv->pump();
-                Srv::sysLine();
+                bool started = sv->srv->start();
+                std::cout << "P sstart " << (started ? 1 : 0) << "\n";
+                sv->multi = true;
+                if (started) {
+                    // the accepts first (one per pass), the events of the new connections withheld; then ONE pass that reads what the
+                    // clients of the backlog had sent already, in connection order
+                    int first = g_accepted;
+                    g_hold = true;
+                    for (int i = 0; i < 16 && g_accepted < (int)sv->clis.size(); ++i) { sv->loop->runNext([] {}, "verif-pass"); sv->loop->runLoop(event::Loop::Mode::kOnce); }
+                    g_hold = false;
+                    for (int k = first; k < g_accepted && k < (int)sv->clis.size(); ++k) {
+                        g_order.push_back(k);
+                        if (sv->clis[k]->pre_data) sv->rd_line = true;
+                    }
+                    g_rd_on = true;
+                }
+                sv->settle();
             } else if (sv && sv->poisoned && (op == "seg" || op == "done" || op == "doneN" || op == "doneR" || op == "rel" ||
                        op == "cclose" || op == "dclose" || op == "dcloseN" || op == "cdone" || op == "chalf" || op == "chalfS" || op == "wfail" || op == "sstop" || op == "sclean" ||
-                       op == "wq" || op == "rseg" || op == "conn" || op == "sstart")) {
+                       op == "wq" || op == "rseg" || op == "conn" || op == "connd" || op == "sstart" || op == "mseg" || op == "msegr")) {
                 std::cout << "P poisoned\n";
             } else if (op == "sync" && w.size() == 3 && vh::to_u64(w[1], n) && vh::unhex(w[2], d) && sv && !sv->c().scripts.count((int)n)) {
                 Srv::Script sc(Srv::kLevels);
@@ -626,6 +771,7 @@ int main() {
             } else if (op == "script" && w.size() == 3 && vh::to_u64(w[1], n) && sv && !sv->c().scripts.count((int)n) &&
                        Srv::parseScript(w[2], sc)) {
                 sv->c().scripts[(int)n] = sc;
+                if (!sc[0].empty() && sc[0][0].kind == 'q') sv->any_q = true;
                 std::cout << "P script\n";
                 Srv::sysLine();
             } else if (op == "seg" && w.size() == 2 && vh::unhex(w[1], d) && sv && !d.empty()) {
